@@ -2,7 +2,7 @@
    The exclusion between holders is the raw lock's contract (modelled by raw_apply, implemented by the
    harness's auditing lock; parking_lot / spin are not verified).  What is proved is that happylock hands
    out data access only to the holder and routes position i of every guard / closure argument to member i. *)
-From HL Require Import Base Model Shape Algo Api OpsLemmas Lemmas ShapeLemmas ApiLemmas QuietLemmas Pf_Calls.
+From HL Require Import Base Model Shape Algo Api OpsLemmas Lemmas ShapeLemmas ApiLemmas QuietLemmas Pf_Calls Pf_Hist Pf_Hist2.
 
 (* the guard structure covers exactly the declared leaves, in declared order ... *)
 Theorem C02_guard_covers : forall s, gleaves (gitems s) = kleaves s.
@@ -56,7 +56,23 @@ Theorem C02_closure_under_hold :
       exists w2 evR, frame (emit w1 (EMark t 1)) w2 /\ w_trace w' = evR ++ w_trace w2 /\ Forall tail_ev evR.
 Proof. exact run_scoped_rest_quiet. Qed.
 
+(* ---------------------------------------------------------------- every history: guards of different threads exclude *)
+(* In EVERY state that a fault-free history of API calls goes through (any number of threads, any collections, any holds
+   of other parties at the start): if two different threads have live guards whose structures contain the same lock, both
+   hold it shared — an exclusive guard (or any guard over a Mutex) excludes every other guard over that lock. *)
+Theorem C02_guards_exclusive :
+  forall sc, wf_histb sc = true ->
+  forall n, let h := fst (hrun (sc_env sc) (sc_nlocks sc) (sc_npids sc) (mkh (sc_world sc) (fun _ => tl0) false)
+                               (firstn n (sc_hist sc))) in
+  h_stop h = false ->
+  forall t1 t2 m1 items1 m2 items2 k1 k2 l, t1 <> t2 ->
+    guard (h_loc h t1) = Some (mkg m1 items1) -> guard (h_loc h t2) = Some (mkg m2 items2) ->
+    In (k1, l) (gleaves items1) -> In (k2, l) (gleaves items2) ->
+    shared k1 m1 = true /\ shared k2 m2 = true.
+Proof. intros sc H. apply guards_exclusive. now apply wf_histb_ok. Qed.
+
 Print Assumptions C02_guard_covers.
 Print Assumptions C02_acquired_is_covered.
 Print Assumptions C02_position_routes.
 Print Assumptions C02_closure_under_hold.
+Print Assumptions C02_guards_exclusive.
